@@ -16,11 +16,16 @@ RULE = ("random record descriptions (C01's generator with a numeric-rich pool: z
         "list of slices value() took from the instance (a BytesInstance subclass that logs __getitem__); for every top-level property nav.name(k).value(), and "
         "Row.values(). The judge checks whole-versus-part on the observations, decodes every elementary item from its own bytes with the C02 model, and compares "
         "everything with the value model. All navigators of a case are created breadth-first from shared, held parent navigators before anything is read. Own streams: OCCURS DEPENDING ON inside a repeated group (index raises KeyError) and negative indices on every table (-1 and a second negative number: IndexError demanded). "
+        "Stream bad-counter: record descriptions with at least one OCCURS DEPENDING ON table whose counters are all unsigned DISPLAY or all unsigned COMP-3 items; in four cases of five "
+        "one or two of the counters a table names hold bytes their decoder rejects (a zoned byte with low nibble A-F under any zone, a packed digit nibble A-F), in the fifth none does (control: the "
+        "partial constructor is the total one, also for COMP-3 counters); every path - fields before, inside and after the tables - is read FROM SCRATCH (unpacker.nav, the path, value()), and so is every "
+        "top-level property and Row.values(); the model is the constructor with a partial counter decoder (coq/Model/LayoutPartial.v). "
         "Non-trivial = tree has OCCURS, REDEFINES, ODO or an undecodable field (branch > 1); distinct = distinct case lines.")
 TRIVIAL_BRANCHES = [1]
 ASSUMPTIONS = ["widths of elementary items are given to the judge as the widths C04's specification lists",
                "the loaded Schema mirrors the JSON document (C15)",
-               "ODO counters hold decodable unsigned digits (a counter with undecodable bytes makes from_instance itself raise; the generator never corrupts a counter)",
+               "outside the stream bad-counter ODO counters hold decodable unsigned digits (the clean generators never corrupt a counter); no generator produces a counter with a "
+               "negative sign (Python's int is negative there and the table gets a negative length: outside the model) - a count above the declared maximum is accepted by code and model alike",
                "the decoder of one elementary item is the C02/C18 model of estruct.unpack (coq/Model/Estruct.v); CONVERSION is Decimal or identity, which leaves "
                "estruct's results unchanged (C16)",
                "alternatives of a oneOf carry pairwise distinct $anchor/title keys (OneOfLocation keeps them in a dict)",
@@ -116,7 +121,11 @@ PACKED_U = {"COMP-3", "COMPUTATIONAL-3", "PACKED-DECIMAL"}
 def fill(record, pos, n, env):
     size, info = n["size"], pic_info(n["pic"])
     d = lambda j: ((pos + j) * 7 + 3) % 10
-    if n.get("is_counter"):
+    if n.get("is_counter") and n["usage"] in PACKED_U:
+        nib = [int(ch) for ch in f"{env[n['id']]:0{2 * size - 1}d}"] + [0xF]
+        for j in range(size):
+            record[pos + j] = 16 * nib[2 * j] + nib[2 * j + 1]
+    elif n.get("is_counter"):
         for j, ch in enumerate(f"{env[n['id']]:0{size}d}"):
             record[pos + j] = 0xF0 + int(ch)
     elif info[0] == "text":
@@ -187,8 +196,81 @@ def with_redefines(tree, paths):
     return out
 
 
+def used_counters(tree):
+    """ids of the counters some OCCURS DEPENDING ON table names"""
+    out = []
+
+    def go(n):
+        if n["occ"] is not None and n["occ"][0] == "odo" and n["occ"][1] not in out:
+            out.append(n["occ"][1])
+        for k in n["kids"]:
+            go(k)
+    go(tree)
+    return out
+
+
+def pack_counters(tree):
+    """every counter becomes an unsigned COMP-3 item of the same number of bytes"""
+    def go(n):
+        if n.get("is_counter"):
+            n["pic"], n["usage"] = f"9({2 * n['size'] - 1})", "COMP-3"
+        for k in n["kids"]:
+            go(k)
+    go(tree)
+
+
+def build_case_bad(c):
+    """stream bad-counter: a tree with an ODO table; the record is laid out for a count vector, then some of the counters
+    a table names are overwritten with bytes their decoder rejects (c['nbad'] of them; 0: control)"""
+    import random
+    if c.get("witness"):
+        # the witness of finding K-bad-counter-blocks-record (Props/C10d.v wit_tree, wit_bad):
+        #   01 REC. 05 HDR PIC X(3). 05 N PIC 9. 05 T OCCURS 5 DEPENDING ON N PIC XX. 05 AFTER PIC X(2).   N = byte 0x4A
+        def el(i, pic, size, **kw):
+            return dict(dict(id=i, kind="elem", pic=pic, usage="DISPLAY", size=size, occ=None, redef=None, filler=False, kids=[]), **kw)
+        tree = dict(id=1, kind="group", occ=None, redef=None, filler=False,
+                    kids=[el(2, "X(3)", 3), el(3, "9", 1, is_counter=True), el(4, "XX", 2, occ=("odo", 3, 5)), el(5, "X(2)", 2)])
+        env = {3: 2}
+        total, counters, paths = layout(tree, env)
+        return tree, env, counters, paths, list(bytes.fromhex("c1c2c34a81818282e9e9"))
+    k = 0
+    while True:
+        rng = random.Random(c["seed"] + 7919 * k)
+        tree = gen_tree10(rng, **c["opts"])
+        if used_counters(tree):
+            break
+        k += 1
+    if c["cusage"] == 1:
+        pack_counters(tree)
+    env = choose_counts(tree, rng)
+    total, counters, paths = layout(tree, env)
+    paths = with_redefines(tree, paths)
+    cap = c.get("cap", 30)
+    if len(paths) > cap:
+        keep = set(rng.sample(range(len(paths)), cap))
+        chosen = {tuple(map(tuple, p)) for i, p in enumerate(paths) if i in keep}
+        # always requested: every counter itself, and the items of the record's first level (fields before and after the tables)
+        chosen |= {tuple(map(tuple, cp)) for _cid, cp, _st, _sz in counters}
+        chosen |= {tuple(map(tuple, p)) for p in paths if len(p) == 1}
+        paths = [p for p in paths if tuple(map(tuple, p)) in chosen]
+    record = make_record10(tree, env, total, rng, c["corrupt"])
+    used = used_counters(tree)
+    victims = [x for x in counters if x[0] in used]
+    rng.shuffle(victims)
+    for _cid, _p, st, sz in victims[:c["nbad"]]:
+        if c["cusage"] == 1:
+            j = rng.randrange(2 * sz - 1)                      # a digit nibble, never the sign nibble
+            b, bad = record[st + j // 2], rng.randrange(10, 16)
+            record[st + j // 2] = (bad << 4 | (b & 0x0F)) if j % 2 == 0 else ((b & 0xF0) | bad)
+        else:
+            record[st + rng.randrange(sz)] = rng.choice([0x0, 0x4, 0x7, 0xC, 0xD, 0xF]) << 4 | rng.randrange(10, 16)
+    return tree, env, counters, paths, record
+
+
 def build_case(c):
     import random
+    if c.get("bad"):
+        return build_case_bad(c)
     rng = random.Random(c["seed"])
     tree = gen_tree10(rng, **c["opts"])
     env = choose_counts(tree, rng)
@@ -232,6 +314,10 @@ def inputs(ctx):
     for i in range(m):
         yield "odo-in-table", dict(seed=rng.randrange(1 << 30), corrupt=i % 2, neg=False, opts=dict(odo_in_table=True, allow_redef=False))
         yield "negative-index", dict(seed=rng.randrange(1 << 30), corrupt=0, neg=True, opts=dict(allow_odo=False))
+    yield "bad-counter", dict(seed=0, corrupt=0, neg=False, bad=True, witness=True, cusage=0, nbad=1, opts={})
+    for i in range(60 if ctx.tier == "quick" else 600):
+        yield "bad-counter", dict(seed=rng.randrange(1 << 30), corrupt=i % 2, neg=False, bad=True, cusage=(i // 2) % 2,
+                                  nbad=(0, 1, 1, 2, 1)[i % 5], opts=dict(max_kids=4, allow_redef=bool(i % 3)))
 
 
 # ---------------------------------------------------------------- observation
@@ -250,8 +336,66 @@ class _WB:
         self.unpacker = unpacker
 
 
+def observe_bad(ctx, c):
+    """stream bad-counter: every observation is a complete read made from scratch - unpacker.nav(schema, instance), the
+    path, then start / end / raw() / value() - so that 'what nav creation did' and 'what each field read did' are both
+    what really happened, whether or not a navigator can be built"""
+    import io
+    from lib import exn_code, observe_call
+    from stingray.cobol_parser import schema_iter
+    from stingray.schema_instance import SchemaMaker, EBCDIC, BytesInstance
+    from stingray.workbook import Sheet, Row
+    tree, env, counters, paths, record = build_case(c)
+    names = assign_names(tree)
+    rev = {v: k for k, v in names.items()}
+    unp = shared_unpacker(False)
+    js = list(schema_iter(io.StringIO(print_copybook(tree))))[0]
+    schema_obs = [0, schema_sx(js, rev, EBCDIC())]
+    schema = SchemaMaker.from_json(js)
+    log = []
+
+    class LogInstance(BytesInstance):
+        def __getitem__(self, key):
+            if isinstance(key, slice):
+                log.append((key.start, key.stop))
+            return super().__getitem__(key)
+
+    def guarded(f):
+        try:
+            return f()
+        except BaseException as ex:
+            if isinstance(ex, (KeyboardInterrupt, SystemExit, MemoryError)):
+                raise
+            return [1, exn_code(ex)]
+
+    top_obs = guarded(lambda: [0, unp.nav(schema, LogInstance(bytes(record))).location.end])
+
+    def read(p):
+        nav = unp.nav(schema, LogInstance(bytes(record)))
+        for kind, x in p:
+            nav = nav.index(x) if kind == 1 else nav.name(names[x] if kind == 0 else "REDEFINES-" + names[x])
+        start, end, raw = nav.location.start, nav.location.end, list(nav.raw())
+        del log[:]
+        val = observe_call(nav.value, lambda v: canon_pv(v, rev))
+        return [0, start, end, raw, val, [list(ab) for ab in sorted(set(log))]]
+
+    path_obs = [[p, guarded(lambda: read(p))] for p in paths]
+    tops = []
+    for name in schema.properties:
+        k = key_of(name, rev)
+        tops.append([[2 if k[0] == 1 else 0, k[1]],
+                     observe_call(lambda: unp.nav(schema, LogInstance(bytes(record))).name(name).value(), lambda v: canon_pv(v, rev))])
+    wb = _WB(unp)                 # held: a Sheet only keeps a weak reference to its workbook
+    sheet = Sheet(wb, "").set_schema(schema)
+    rowvals = observe_call(lambda: Row(sheet, LogInstance(bytes(record))).values(), lambda vs: [canon_pv(v, rev) for v in vs])
+    return [tree_sx(tree), record, [[k, v] for k, v in sorted(env.items())], [[cid, p] for cid, p, _, _ in counters], atoms_sx(tree),
+            schema_obs, top_obs, path_obs, [tops, rowvals], [], total_extent(tree, env) - len(record), [1, c["cusage"]]]
+
+
 def observe(ctx, c):
     from lib import exn_code, observe_call
+    if c.get("bad"):
+        return observe_bad(ctx, c)
     tree, env, counters, paths, record = build_case(c)
     schema_obs, top_obs, _lrecl, _p, extras = observe_layout(tree, record, [], False)
     head = [tree_sx(tree), record, [[k, v] for k, v in sorted(env.items())], [[cid, p] for cid, p, _, _ in counters], atoms_sx(tree),
